@@ -16,7 +16,8 @@ LEVEL = "exploration"
 RULE = ("Byte strings of length 0..8966 from five generators: random bytes behind a plausible header; mutations (bit flip, "
         "truncate, insert, count/rdlength corruption) of valid messages produced by the real encoder and by the independent "
         "encoder in several compression layouts; grammar-generated compression graphs (chains to 4400 hops, cycles, self/forward "
-        "references, pointers into rdata/header/end); exhaustive strings over {00,01,3f,40,c0,0c,0e,ff} appended to a one-question "
+        "references, pointers into rdata/header/end, over-long names first met in skippable rdata or hidden in TXT rdata and "
+        "then referenced by bare pointers); exhaustive strings over {00,01,3f,40,c0,0c,0e,ff} appended to a one-question "
         "header; unmodified valid messages (drive the faithfulness monitor). Monitors: no exception of any type; Python call "
         "count and stack depth under a fixed budget (sys.setprofile); decoded names <=253 chars and typed fields; equality with "
         "the independent strict parser whenever it accepts. Distinct = (generator, outcome, pointer-shape) tuples.")
